@@ -186,3 +186,29 @@ Proof.
   - intros chunkss Ht. apply Hs.
     apply (forall2_expand env pe T (fun t cs => Forall (fun c => has_type env t c = true) cs)). exact Ht.
 Qed.
+
+(* ------------------------------------------------------------ order independence on the declared spelling *)
+
+Lemma expand_keys_perm : forall env pe T (m m' : fmap),
+  Permutation m m' -> Permutation (expand_keys env pe T m) (expand_keys env pe T m').
+Proof. intros. unfold expand_keys. apply Permutation_map. assumption. Qed.
+
+(* acceptance by Compile does not depend on the declaration order, whatever spellings are used *)
+Theorem compile_x_accept_perm : forall env pe T ds ds',
+  Permutation ds ds' ->
+  ((exists ckss, compile_x env pe T ds [] = CAccept ckss) <-> (exists ckss', compile_x env pe T ds' [] = CAccept ckss')).
+Proof.
+  intros env pe T ds ds' HP. unfold compile_x. simpl.
+  assert (E : forall l, compile_s env T l [] = compile env T l).
+  { intro l. unfold compile_s. destruct (compile env T l); reflexivity. }
+  rewrite !E. apply compile_accept_perm. unfold expand_decls. apply Permutation_map. exact HP.
+Qed.
+
+(* convertTo on keys spelled as declared: every iteration order of its map gives the same outcome
+   as long as no two keys denote the same or nested slots *)
+Theorem convert_to_x_perm : forall env pe T (m m' : fmap),
+  Permutation m m' -> no_conflict (keys (expand_keys env pe T m)) ->
+  convert_to_x env pe T m = convert_to_x env pe T m'.
+Proof.
+  intros env pe T m m' HP Hn. unfold convert_to_x. apply convert_to_perm; [apply expand_keys_perm; exact HP | exact Hn].
+Qed.
